@@ -205,6 +205,40 @@ def run_case(case):
                 pass       # grazing the surface: either answer
             else:
                 v.close("Fresnel coefficients == textbook reflection at the surface (1 when the ray does not reach it)", float(max(abs(fr[0] - tb[0]), abs(fr[1] - tb[1]))), 1e-6, textbook=list(tb), **det_f)
+        if hasattr(p, "paths") and all(hasattr(sp, "_points") and len(sp._points) == 2 for sp in p.paths):
+            # layered path made of straight legs: textbook product of the junction coefficients from the leg geometry alone
+            # (keeps the known finding "transmission amplitude > 1" bounded: the magnitude must still be the textbook one)
+            ts, tp = 1.0, 1.0
+            lay_ice = ice
+            for s1_, s2_ in zip(p.paths[:-1], p.paths[1:]):
+                a1, b1 = np.asarray(s1_._points[0], float), np.asarray(s1_._points[1], float)
+                a2, b2 = np.asarray(s2_._points[0], float), np.asarray(s2_._points[1], float)
+                seg1, seg2 = b1 - a1, b2 - a2
+                n1_ = float(s1_.ice.index(float(0.5 * (a1[2] + b1[2]))))
+                sin1 = float(np.hypot(seg1[0], seg1[1]) / np.linalg.norm(seg1))
+                cos1 = float(np.sqrt(max(1 - sin1 ** 2, 0.0)))
+                if np.sign(seg1[2]) == np.sign(seg2[2]):
+                    n2_ = float(s2_.ice.index(float(0.5 * (a2[2] + b2[2]))))
+                    sin2 = n1_ / n2_ * sin1
+                    cos2 = np.sqrt(1 - sin2 ** 2) if sin2 <= 1 else 1j * np.sqrt(sin2 ** 2 - 1)
+                    ts *= abs(2 * n1_ * cos1 / (n1_ * cos1 + n2_ * cos2))
+                    tp *= abs(2 * n1_ * cos1 / (n2_ * cos1 + n1_ * cos2))
+                else:
+                    zb_ = float(b1[2])
+                    bnds = list(lay_ice.boundaries)
+                    ib = int(np.argmin([abs(zb_ - bb) for bb in bnds]))
+                    if seg1[2] > 0:
+                        n2_ = lay_ice.index_above if ib == 0 else float(lay_ice.layers[ib - 1].index(zb_ + 1e-9))
+                    else:
+                        n2_ = lay_ice.index_below if ib == len(lay_ice.layers) else float(lay_ice.layers[ib].index(zb_ - 1e-9))
+                    if n2_ is None:
+                        ts = tp = None
+                        break
+                    r1, r2 = textbook_fresnel(n1_, float(n2_), sin1)
+                    ts *= r1
+                    tp *= r2
+            if ts is not None:
+                v.close("layered Fresnel factor == product of the textbook junction coefficients", float(max(abs(fr[0] - ts), abs(fr[1] - tp))), 1e-6, textbook=[ts, tp], **det_f)
         # (6) passive: never more energy out than in
         ein = float(np.sum(vals ** 2) * np.dot(pol, pol))
         eout = float(np.sum(ss.values ** 2) + np.sum(sp.values ** 2))
